@@ -11,13 +11,29 @@ func VHarness_C04_full_ops() {
 	vWorldSetup(n, true)
 	var ops []*operation.AnchoredOperation
 	for i, r := range vW.recs {
-		ops = append(ops, vAnchored(i, r, uint64(10+i), uint64(i), true))
+		// anchoring order is fixed by the (distinct) transaction times; transaction numbers are arbitrary
+		ops = append(ops, vAnchored(i, r, uint64(10+i), VNondetU64("txn.number"), true))
 	}
-	got, err := vResolve(ops, nil)
-	if err != nil {
+	// the store returns them in anchoring order, reversed, or rotated
+	var store []*operation.AnchoredOperation
+	switch VNondetRange("storeOrder", 0, 2) {
+	case 0:
+		store = append(store, ops...)
+	case 1:
+		for i := len(ops) - 1; i >= 0; i-- {
+			store = append(store, ops[i])
+		}
+	default:
+		store = append(append(store, ops[1:]...), ops[0])
+	}
+	got, err := vResolve(store, nil)
+	want, ok := vRefResolve(ops)
+	VAssert("C04/error-iff-model-error", (err != nil) == !ok)
+	if err != nil || !ok {
 		VCover("error")
 		return
 	}
+	VAssert("C04/state-eq-reference-resolver", vSameState(got, want))
 	lastFull, deact := -1, false
 	for k, tag := range vW.okTags {
 		r := vW.recs[tag]
